@@ -35,6 +35,10 @@ func checkC16(c *Ctx, r *Report) {
 	// prerequisite: user code (GetToken, actions) is assumed to compile against the declared token names — that needs
 	// a constant for every named terminal the file declares, −1 tokens included (C11.c)
 	includeSome(r, "C16.a", func(sub *Report) { c11c(c, sub, st) }, "buildConstPart/filter", "buildConstPart/name-value-pair")
+	// … and the translate switch has one case per terminal: two terminals with one code are a duplicate case label.
+	// Automatic codes stay clear of every explicit one only if the maximum is taken over all declarations first (C11.a)
+	// and each automatic code is a pre-increment above it (C11.b)
+	includeSome(r, "C16.a", func(sub *Report) { c11a(c, sub); c11b(c, sub) }, "max-scan-before-numbering", "pre-incremented-code")
 	nSk := 0
 	for _, sc := range st.Configs {
 		name := "skeleton " + sc.V.Name
